@@ -205,12 +205,12 @@ def sc_slot_reuse(sess, rng, tb):
 
 def gen_cases(sess, rng, tb, tier):
     q = tier == 'quick'; cases = []
-    for _ in range(14 if q else 100): cases.append(sc_sweep(sess, rng, tb))
+    for _ in range(10 if q else 100): cases.append(sc_sweep(sess, rng, tb))
     for _ in range(8 if q else 50): cases.append(sc_rootmount(sess, rng, tb))
-    for _ in range(2 if q else 6): cases.append(sc_overmount_reuse(sess, rng, tb))
+    for _ in range(1 if q else 6): cases.append(sc_overmount_reuse(sess, rng, tb))
     for _ in range(1 if q else 4): cases.append(sc_failed_mount_reuse(sess, rng, tb))
-    for _ in range(2 if q else 8): cases.append(sc_slot_reuse(sess, rng, tb))
-    for _ in range(25 if q else 250): cases.append(sc_random(sess, rng, tb, rng.randrange(10, 50)))
+    for _ in range(1 if q else 8): cases.append(sc_slot_reuse(sess, rng, tb))
+    for _ in range(20 if q else 250): cases.append(sc_random(sess, rng, tb, rng.randrange(10, 50)))
     for _ in range(5 if q else 40): cases.append(sc_random(sess, rng, tb, rng.randrange(10, 40), wf=False))
     for c in cases: c.finish()
     return cases
